@@ -23,6 +23,15 @@ def sym_term(fl, t, node):
     return fl.sym(e_, node)
 
 
+def _replace(t, old, new):
+    if t == old:
+        return new
+    if not isinstance(t, tuple) or not t or t[0] == "const":
+        return t
+    return tuple(_replace(x, old, new) if isinstance(x, tuple) else x
+                 for x in t)
+
+
 def remainder_cases(T, fl, expr, tnode, fnode):
     """[(extra constraints, value term)] for ``expr`` at ``tnode`` (node of
     the Terms CFG; ``fnode`` the same place in the Flow CFG): one case when
@@ -30,6 +39,33 @@ def remainder_cases(T, fl, expr, tnode, fnode):
     it is merged some other way."""
     whole = T.term(expr, tnode)
     if not any(st[0] in VOLATILE for st in subterms(whole)):
+        # a conditional expression on a remainder: ``q + 1 if r else q``
+        ites = [st for st in subterms(plain(whole)) if st[0] == "ite" and
+                any(x[0] == "binop" and x[1] == "Mod"
+                    for x in subterms(st[1]))]
+        if len(set(ites)) == 1:
+            c = ites[0][1]
+            X, nz = None, None
+            if c[0] == "cmp" and c[1] in ("Eq", "NotEq") and \
+                    ("const", 0) in (c[2], c[3]):
+                X = c[3] if c[2] == ("const", 0) else c[2]
+                nz = (c[1] == "NotEq")
+            elif c[0] == "cmp" and c[1] in ("Gt", "GtE") and \
+                    c[3] == ("const", 0 if c[1] == "Gt" else 1):
+                X, nz = c[2], True
+            elif c[0] == "binop" and c[1] == "Mod":
+                X, nz = c, True
+            elif c[0] == "not" and c[1][0] == "binop" and c[1][1] == "Mod":
+                X, nz = c[1], False
+            if X is not None and X[0] == "binop" and X[1] == "Mod":
+                Xp = sym_term(fl, X, fnode)
+                outs = []
+                for v in (True, False):
+                    tv = _replace(plain(whole), ites[0],
+                                  ites[0][2] if v else ites[0][3])
+                    outs.append(([le(1, Xp)] if nz == v else list(eq(Xp, 0)),
+                                 tv))
+                return outs
         return [([], whole)]
     for a in T.cfg.nodes:
         if a.kind != "assume" or not a.polarity or \
